@@ -262,6 +262,18 @@ fn branch_state_programs() -> Vec<(String, Vec<f64>, String)> {
          vec![0.0, 520.0, 520.0, 520.0], "mem in both branches, else path".to_string()),
         ("fn sel(c){\n  if (c) { mem(10.0) } else { mem(20.0) }\n}\nfn dsp(){\n  let a = sel(1.0)\n  let b = mem(5.0)\n  a + b*100.0\n}\n".to_string(),
          vec![0.0, 510.0, 510.0, 510.0], "mem in both branches, then path".to_string()),
+        // constructor match between two stateful calls, stateless arms (finding F9)
+        ("type Shape = Circle(float) | Square(float)\nfn cnt(){ self + 1.0 }\nfn f(s){\n  let a = cnt()\n  let b = match s {\n    Circle(r) => r,\n    Square(w) => w * 2.0\n  }\n  let c = cnt()\n  a + b*100.0 + c*10000.0\n}\nfn dsp(){\n  f(Circle(3.0))\n}\n".to_string(),
+         vec![10301.0, 20302.0, 30303.0, 40304.0], "constructor match between two counters".to_string()),
+        // constructor match with stateful arms of different sizes, second arm taken
+        ("type Shape = Circle(float) | Square(float)\nfn cnt(){ self + 1.0 }\nfn f(s){\n  let a = cnt()\n  let b = match s {\n    Circle(r) => r + cnt()*0.0,\n    Square(w) => w * 2.0 + mem(1.0)*0.0 + mem(2.0)*0.0\n  }\n  let c = cnt()\n  a + b*100.0 + c*10000.0\n}\nfn dsp(){\n  f(Square(3.0))\n}\n".to_string(),
+         vec![10601.0, 20602.0, 30603.0, 40604.0], "constructor match with stateful arms, second arm".to_string()),
+        // integer-literal match with stateful arms, wildcard arm taken (finding F10)
+        ("fn cnt(){ self + 1.0 }\nfn f(x){\n  let a = cnt()\n  let b = match x {\n    0 => cnt()*10.0,\n    1 => mem(5.0)*0.0 + 7.0,\n    _ => cnt()*100.0\n  }\n  let c = cnt()\n  a + b + c*10000.0\n}\nfn dsp(){\n  f(2.0)\n}\n".to_string(),
+         vec![10101.0, 20202.0, 30303.0, 40404.0], "integer match with stateful arms, wildcard arm".to_string()),
+        // tuple match (decision tree) with stateful arms, last arm taken (finding F11)
+        ("fn cnt(){ self + 1.0 }\nfn f(x, y){\n  let a = cnt()\n  let b = match (x, y) {\n    (0, 0) => cnt()*10.0,\n    (0, _) => mem(4.0)*0.0 + 5.0,\n    (_, _) => cnt()*100.0\n  }\n  let c = cnt()\n  a + b + c*10000.0\n}\nfn dsp(){\n  f(1.0, 1.0)\n}\n".to_string(),
+         vec![10101.0, 20202.0, 30303.0, 40404.0], "tuple match with stateful arms, last arm".to_string()),
     ]
 }
 fn run_vm_sched(src: &str, times: usize) -> Result<Vec<f64>, String> {
